@@ -18,7 +18,7 @@ fn cbor_err(e: ctap_types::serde::Error) -> &'static str {
 // ------------------------------------------------------------------------------------------
 // decode2: ctap2::Request::deserialize
 // ------------------------------------------------------------------------------------------
-fn decode2_once(wire: &[u8]) -> Value {
+pub fn decode2_once(wire: &[u8]) -> Value {
     match ctap2::Request::deserialize(wire) {
         Ok(req) => {
             let mut bw = Borrow::new(wire);
@@ -49,7 +49,7 @@ pub fn decode2(inp: &Value) -> R<Value> {
 // ------------------------------------------------------------------------------------------
 // encode2: ctap2::Response::serialize into a Vec<u8, N>
 // ------------------------------------------------------------------------------------------
-fn serialize_into<const N: usize>(resp: &ctap2::Response, stale: &[u8]) -> std::vec::Vec<u8> {
+pub fn serialize_into<const N: usize>(resp: &ctap2::Response, stale: &[u8]) -> std::vec::Vec<u8> {
     let mut buf = heapless::Vec::<u8, N>::new();
     buf.extend_from_slice(&stale[..stale.len().min(N)]).unwrap();
     resp.serialize(&mut buf);
